@@ -46,6 +46,9 @@ AddrKind(toks) ==
     [] toks[1].t = "ip" -> "bare"
     [] OTHER -> "none"
 
+(* the group keyword is the platform's own ("object-group" on IOS / ASA, "addrgroup" on NX-OS) *)
+KwOK(plat, kind) == (kind = "object-group" => plat # "nxos") /\ (kind = "addrgroup" => plat = "nxos")
+
 (* --- port expression at the head of toks -------------------------------- *)
 (* operand value: a number 1.. or a name of the table; 0 = not an operand  *)
 OperandVal(tbl, tk) ==
@@ -114,7 +117,7 @@ ParseAce(plat, vmajor, toks0) ==
       t4 == Drop(t3, w1)
       p1 == ParsePort(tbl, MaxEq(plat), t4)
   IN
-  IF src.k = "bad" \/ ~p1.ok THEN BadAce
+  IF src.k = "bad" \/ ~p1.ok \/ ~KwOK(plat, AddrKind(t3)) THEN BadAce
   ELSE
   LET t5 == Drop(t4, p1.n)
       w2 == AddrWidth(t5)
@@ -125,7 +128,7 @@ ParseAce(plat, vmajor, toks0) ==
       t6 == Drop(t5, w2)
       p2 == ParsePort(tbl, MaxEq(plat), t6)
   IN
-  IF dst.k = "bad" \/ ~p2.ok THEN BadAce
+  IF dst.k = "bad" \/ ~p2.ok \/ ~KwOK(plat, AddrKind(t5)) THEN BadAce
   ELSE
   LET rest == Drop(t6, p2.n) IN
   IF ~AllWords(rest) \/ (\E k \in 1..Len(rest) : rest[k].s \in Ops) THEN BadAce
@@ -134,6 +137,23 @@ ParseAce(plat, vmajor, toks0) ==
         flags |-> NotIn(Words(rest), LogKeywords), logs |-> OnlyIn(Words(rest), LogKeywords),
         sk |-> [seq |-> hasSeq, proto |-> IF IsNum(ptk) THEN "num" ELSE ptk.s,
                 src |-> AddrKind(t3), dst |-> AddrKind(t5), spn |-> p1.names, dpn |-> p2.names]]
+
+---------------------------------------------------------------------------
+(* Writing an entry: one canonical token sequence per platform (numbers    *)
+(* for ports, the platform's keyword for the protocol when it has one).    *)
+WTok(x) == [t |-> "w", s |-> x, b |-> <<>>, n |-> 0, h |-> 0]
+NTok(v) == [t |-> "n", s |-> "", b |-> <<>>, n |-> v, h |-> 0]
+FullTok(tk) == [t |-> tk.t, s |-> tk.s, b |-> tk.b, n |-> tk.n, h |-> 0]
+AddrToks(plat, a) == LET r == RenderAddr(plat, a) IN [k \in 1..Len(r) |-> FullTok(r[k])]
+PortToks(pe) == IF pe.op = "" THEN <<>> ELSE <<WTok(pe.op)>> \o [k \in 1..Len(pe.items) |-> NTok(pe.items[k])]
+ProtoTok(plat, n) == LET nm == NamesFor(ProtoTable(plat), n) IN IF nm = {} THEN NTok(n) ELSE WTok(CHOOSE x \in nm : TRUE)
+WordToks(ws) == [k \in 1..Len(ws) |-> WTok(ws[k])]
+RenderCanon(plat, a) ==
+  (IF a.seq = <<0, 0>> THEN <<>> ELSE <<[t |-> "n", s |-> "", b |-> <<>>, n |-> a.seq[2], h |-> a.seq[1]]>>)
+  \o <<WTok(a.act)>>
+  \o (IF a.typ = "standard" THEN AddrToks(plat, a.src)
+      ELSE <<ProtoTok(plat, a.proto)>> \o AddrToks(plat, a.src) \o PortToks(a.sp) \o AddrToks(plat, a.dst) \o PortToks(a.dp))
+  \o WordToks(a.flags) \o WordToks(a.logs)
 
 ---------------------------------------------------------------------------
 (* Meaning: what the entry matches, independent of spelling.               *)
